@@ -79,6 +79,9 @@ fn both_entries_possible(s: &Setup) -> bool {
     matches!((s.cwd, s.conf), (Cwd::SrcTauri, ConfSrc::Tauri) | (Cwd::SrcTauri, ConfSrc::Standalone) | (Cwd::App, ConfSrc::Standalone))
 }
 
+/// strings that are no serde rename rule (what a typing slip leaves in a configuration file)
+const UNKNOWN_CASES: &[&str] = &["snake-case", "Snake_Case", "snake", "camelcase", "lower", "Kebab-Case"];
+
 fn gen_config_change(r: &mut Rng, class: &str, cfg: &Cfg, setup: &Setup, model: &Model) -> Option<(Cfg, Option<String>, String)> {
     let mut c = cfg.clone();
     let mut out = None;
@@ -142,6 +145,22 @@ fn gen_config_change(r: &mut Rng, class: &str, cfg: &Cfg, setup: &Setup, model: 
             }
             desc = format!("{} -> {}", class, v);
             if class == "param_case" {
+                c.param_case = Some(v);
+            } else {
+                c.field_case = Some(v);
+            }
+        }
+        // asked for by name in the fourth directed quick block (not in CONFIG_CHANGES): the setting
+        // moves between the rule that is its default and a string that is no rename rule at all
+        "param_case_unknown" | "field_case_unknown" => {
+            if setup.conf != ConfSrc::Standalone {
+                return None;
+            }
+            let (cur, default) = if class == "param_case_unknown" { (c.param_case.clone(), "camelCase") } else { (c.field_case.clone(), "snake_case") };
+            let known = cur.as_deref().map(|x| RENAME_RULES.contains(&x)).unwrap_or(true);
+            let v = if known { r.pick(UNKNOWN_CASES).to_string() } else { default.to_string() };
+            desc = format!("{}: {:?} -> {:?}", class, cur, v);
+            if class == "param_case_unknown" {
                 c.param_case = Some(v);
             } else {
                 c.field_case = Some(v);
@@ -226,7 +245,7 @@ impl Check for C08 {
     }
     fn cases(&self, tier: Tier) -> u64 {
         match tier {
-            Tier::Quick => 900 + 130 + 39 + 52,
+            Tier::Quick => 900 + 130 + 39 + 52 + 48,
             Tier::Thorough => 24000,
         }
     }
@@ -269,8 +288,16 @@ impl Check for C08 {
         // declares (two fields of a struct, two variants of an enum) x every setup x both
         // generators; the declaration order is the order of the generated interface / schema /
         // union, so the edit is output-affecting although no name, type or attribute changes
-        let reorder_tail: Option<u64> = quick_tail.filter(|j| *j >= 169).map(|j| j - 169);
-        if validator_tail.is_some() || reorder_tail.is_some() {
+        let reorder_tail: Option<u64> = quick_tail.filter(|j| *j >= 169 && *j < 221).map(|j| j - 169);
+        // fourth directed block (48 cases): a naming-case setting of the standalone configuration
+        // file moves between its default rule and a string that is no rename rule (both
+        // directions, both settings, both generators, every setup with such a file)
+        let case_tail: Option<u64> = quick_tail.filter(|j| *j >= 221).map(|j| j - 221);
+        if let Some(u) = case_tail {
+            let st: Vec<&Setup> = setups.iter().filter(|s| s.conf == ConfSrc::Standalone).collect();
+            setup = st[((u / 8) % st.len() as u64) as usize].clone();
+        }
+        if validator_tail.is_some() || reorder_tail.is_some() || case_tail.is_some() {
             gp.n_types = 1;
             gp.n_cmds = 1;
             gp.n_files = 1;
@@ -300,6 +327,25 @@ impl Check for C08 {
             model.files[0].items.push(Item::Cmd(Command {
                 name: format!("submit_tail_form_{}", v),
                 params: vec![Param { name: "form".into(), ty: Ty::Named(form) }],
+                chans: vec![],
+                ret: None,
+                is_async: false,
+                short_attr: false,
+                emits: vec![],
+                is_command: true,
+            }));
+            model.files.truncate(1);
+        }
+        if let Some(u) = case_tail {
+            use crate::model::{Command, Field, Item, Param, StructDef, Ty};
+            let form = format!("CaseForm{}", u);
+            let fld = |n: &str, ty: &str| Field { name: n.into(), ty: Ty::Prim(ty.into()), public: true, rename: None, skip: false, validate: None };
+            let fields = vec![fld("user_name", "String"), fld("item_count", "i32"), fld("is_urgent", "bool")];
+            model.files[0].items.clear();
+            model.files[0].items.push(Item::Struct(StructDef { name: form.clone(), fields, rename_all: None, serde: true, qualified_derive: false }));
+            model.files[0].items.push(Item::Cmd(Command {
+                name: format!("save_case_form_{}", u),
+                params: vec![Param { name: "case_form".into(), ty: Ty::Named(form) }, Param { name: "dry_run".into(), ty: Ty::Prim("bool".into()) }],
                 chans: vec![],
                 ret: None,
                 is_async: false,
@@ -369,6 +415,20 @@ impl Check for C08 {
         cfg.mode = if i % 2 == 0 || validator_tail.is_some() { "zod".into() } else { "none".into() };
         if let Some(t) = reorder_tail {
             cfg.mode = if (t / 26) % 2 == 0 { "zod".into() } else { "none".into() };
+        }
+        if let Some(u) = case_tail {
+            cfg.mode = if (u / 4) % 2 == 0 { "zod".into() } else { "none".into() };
+            // direction: from the default rule (spelled out or left to the default) to an unknown string, or back
+            let start = |default: &str, k: u64| -> Option<String> {
+                match k % 4 {
+                    0 => Some(default.to_string()),
+                    1 => None,
+                    2 => Some(UNKNOWN_CASES[((u / 16) % UNKNOWN_CASES.len() as u64) as usize].to_string()),
+                    _ => Some(UNKNOWN_CASES[((u / 16 + 3) % UNKNOWN_CASES.len() as u64) as usize].to_string()),
+                }
+            };
+            cfg.field_case = start("snake_case", u / 2);
+            cfg.param_case = start("camelCase", u / 2);
         }
         let mut sr = r.split("steps");
         let init_state = if quick_tail.is_some() { "current".to_string() } else { ["current", "current", "never", "other_mode"][((i / 3) % 4) as usize].to_string() };
@@ -491,6 +551,8 @@ impl Check for C08 {
                     classes[if last { b } else { a }].clone()
                 } else if let (Some(v), true) = (validator_tail, tries < 8) {
                     ("edit".to_string(), ["validator_min_zero", "validator_message", "change_validator"][((v / setups.len() as u64) % 3) as usize].to_string())
+                } else if let (Some(u), true) = (case_tail, tries < 8) {
+                    ("config".to_string(), ["field_case_unknown", "param_case_unknown"][(u % 2) as usize].to_string())
                 } else if let (Some(t), true) = (reorder_tail, tries < 8) {
                     ("edit".to_string(), crate::edits::REORDER_CLASSES[((t / setups.len() as u64) % 2) as usize].to_string())
                 } else if let (Some(j), 0) = (quick_tail, tries) {
